@@ -431,6 +431,7 @@ class Gen:
         self.want_error = rng.random() < cfg.p_error
         self.error_done = False
         self.no_str_vars = False
+        self.stop_range = (0, 3)
 
     # -- names --------------------------------------------------------------------------------
     def fresh(self, prefix):
@@ -600,6 +601,13 @@ class Gen:
         effectful_named = False
         for i, (n, dflt) in enumerate(ps):
             ty = ptypes.get(n, "num")
+            if ty == "stopnum":
+                e = ("num", Fraction(self.rng.randint(*self.stop_range)))
+                if i < npos:
+                    pos.append(e)
+                else:
+                    named.append((n, e))
+                continue
             if ty == "smallnum":
                 # recursion depth argument: kept small
                 e = ("bin", "mod", self.expr(sc, "num", d - 1, pure), ("num", Fraction(6)))
@@ -771,32 +779,66 @@ class Gen:
             self.features.add("@for")
             inner = Scope(sc)
             v = r.choice(["i", "j", "k"])
+            pre, head = [], ()
+            outer = sc.lookup("vars", lambda n, t: t == "num" and n not in ("g1",))
+            if outer and r.random() < 0.35:
+                # the loop variable shadows an outer variable that was read just before the loop
+                # (the read leaves the lookup cache pointing at the outer frame)
+                v = r.choice(outer)[0]
+                self.features.add("loop-var-shadows-just-read")
+                pre = [("debug", ("var", self.sp(v)))]
+                head = (("debug", ("var", self.sp(v))),)
             inner.vars[v] = "num"
             lo, hi = r.randint(-2, 5), r.randint(-2, 5)
             lo_e = ("num", Fraction(lo)) if r.random() < 0.7 else self.small_num(sc, lo)
             hi_e = ("num", Fraction(hi)) if r.random() < 0.7 else self.small_num(sc, hi)
-            return [("for", v, lo_e, hi_e, r.random() < 0.5, self.block(inner, depth - 1, dict(ctx, in_callable_or_ctl=True), 1, 3))]
+            body = head + self.block(inner, depth - 1, dict(ctx, in_callable_or_ctl=True), 1, 3)
+            post = [("debug", ("var", self.sp(v)))] if pre else []
+            return pre + [("for", self.sp(v) if pre else v, lo_e, hi_e, r.random() < 0.5, body)] + post
         if k == "each":
             self.features.add("@each")
             inner = Scope(sc)
             c = r.random()
             if c < 0.5:
                 v = r.choice(["e", "f"])
+                pre, head = [], ()
+                outer = sc.lookup("vars", lambda n, t: t == "num" and n not in ("g1",))
+                if outer and r.random() < 0.35:
+                    v = r.choice(outer)[0]
+                    self.features.add("loop-var-shadows-just-read")
+                    pre = [("debug", ("var", self.sp(v)))]
+                    head = (("debug", ("var", self.sp(v))),)
+                lst = self.expr(sc, "list", d)
                 inner.vars[v] = "num"
-                return [("each", (v,), self.expr(sc, "list", d), self.block(inner, depth - 1, dict(ctx, in_callable_or_ctl=True), 1, 3))]
+                body = head + self.block(inner, depth - 1, dict(ctx, in_callable_or_ctl=True), 1, 3)
+                post = [("debug", ("var", self.sp(v)))] if pre else []
+                return pre + [("each", (v,), lst, body)] + post
             if c < 0.8:
                 self.features.add("@each-map")
                 inner.vars["k"] = "str"
                 inner.vars["v"] = "num"
                 return [("each", ("k", "v"), self.expr(sc, "map", d), self.block(inner, depth - 1, dict(ctx, in_callable_or_ctl=True), 1, 3))]
             self.features.add("@each-destructure")
-            rows = tuple(("list", tuple(("num", Fraction(r.randint(0, 9))) for _ in range(r.choice([1, 2, 2, 3]))), "s", False)
-                         for _ in range(r.choice([1, 2, 3])))
+            nv = r.choice([2, 2, 3])
+            names = ("m", "n", "o")[:nv]
+            lens = [r.choice([1, 2, 2, 3, 4]) for _ in range(r.choice([2, 3, 3, 4]))]
+            if r.random() < 0.7:
+                # ragged: a shorter element follows a longer one (its missing positions are null)
+                j = r.randrange(len(lens) - 1)
+                lens[j], lens[j + 1] = max(nv, lens[j]), r.randint(1, nv - 1)
+                self.features.add("@each-ragged")
+            rows = tuple(("list", tuple(("num", Fraction(r.randint(0, 9))) for _ in range(n_)), r.choice(["s", "s", "c"]), False)
+                         for n_ in lens)
             rows = tuple(x if len(x[1]) != 1 else x[1][0] for x in rows)
             inner.vars["m"] = "num"
-            inner.vars["n"] = "mixednull"
-            lst = ("list", rows, "c", False) if len(rows) != 1 else ("list", rows, "c", False)
-            return [("each", ("m", "n"), lst, self.block(inner, depth - 1, dict(ctx, in_callable_or_ctl=True), 1, 3))]
+            for nm in names[1:]:
+                inner.vars[nm] = "mixednull"
+            lst = ("list", rows, "c", False)
+            if any(x[0] == "list" and x[2] == "c" for x in rows):
+                lst = ("list", rows, "s", False)
+            body = tuple(("debug", ("var", nm)) for nm in names) + \
+                self.block(inner, depth - 1, dict(ctx, in_callable_or_ctl=True), 0, 2)
+            return [("each", names, lst, body)]
         if k == "while":
             self.features.add("@while")
             cn = self.fresh("n")
@@ -978,6 +1020,38 @@ def gen_program(rng, cfg):
         s = g.callable_stmt(root, min(cfg.depth, 3), ctx, kind)
         if s:
             body.extend(s)
+    if rng.random() < 0.3:
+        # @return on a non-last iteration of (nested) loops, ascending and descending: nothing may
+        # run after it
+        g.features.add("return-in-loop")
+        I, J, K = ("var", "i"), ("var", "j"), ("var", "k")
+        num = lambda n_: ("num", Fraction(n_))
+        lo, hi = rng.randint(-2, 3), rng.randint(-2, 3)
+        if lo == hi:
+            hi += 2
+        stop = rng.randint(min(lo, hi), max(lo, hi))
+        kind = rng.choice(["for", "for", "each", "while", "nested"])
+        hit = (("debug", ("list", (("str", "hit", False), I), "s", False)), ("ret", ("bin", "mul", I, num(10))))
+        if kind == "for":
+            loop = ("for", "i", num(lo), num(hi), rng.random() < 0.6,
+                    (("debug", I), ("ifs", ((("bin", "eq", I, K), hit),), None), ("debug", ("bin", "add", I, num(100)))))
+        elif kind == "each":
+            vals = tuple(num(x) for x in rng.sample(range(-3, 6), 4))
+            loop = ("each", ("i",), ("list", vals, "c", False),
+                    (("debug", I), ("ifs", ((("bin", "eq", I, K), hit),), None), ("debug", ("bin", "add", I, num(100)))))
+        elif kind == "while":
+            loop = ("while", ("bin", "lt", I, num(max(lo, hi) + 1)),
+                    (("debug", I), ("ifs", ((("bin", "eq", I, K), hit),), None), ("var", "i", ("bin", "add", I, num(1)), False, False)))
+        else:
+            inner_loop = ("each", ("j",), ("list", (num(7), num(8), num(9)), "s", False),
+                          (("debug", ("list", (I, J), "s", False)),
+                           ("ifs", ((("bin", "and", ("bin", "eq", I, K), ("bin", "eq", J, num(rng.choice([7, 8])))), hit),), None)))
+            loop = ("for", "i", num(lo), num(hi), True, (inner_loop, ("debug", ("bin", "add", I, num(100)))))
+        pre = (("var", "i", num(min(lo, hi)), False, False),) if kind == "while" else ()
+        body.append(("func", "rl", ((("k", None),), None), pre + (loop, ("ret", num(-1)))))
+        root.fns["rl"] = (((("k", None),), None), "num", False, {"k": "stopnum"})
+        g.stop_range = (min(lo, hi) - 1, max(lo, hi) + 1)
+        body.append(("debug", ("call", "rl", (num(stop),), (), None)))
     if rng.random() < 0.12:
         # recursion: a function and a mixin that call themselves with a decreasing counter
         g.features.add("recursion")
@@ -1197,6 +1271,11 @@ def gen_scope_tree(rng, depth=3, size=20, imports=True):
                     name = rng.choice([n for n in mixins.names() if mixins.get(n)])
                     seq = (("read", i), ("include", name, (("read", i),) + filler()), ("assign", i, val()),
                            ("include", name, (("read", i),)), ("read", i))
+                elif g < 0.85:
+                    # a loop variable with the name of the variable that was read last (the binding
+                    # must refresh the cache, scope.rs:133)
+                    feats.add("loop-var-after-read")
+                    seq = (("read", i), ("each", i, (val(), val()), (("read", i),) + filler()), ("read", i))
                 elif imports:
                     state["f"] += 1
                     seq = (("read", i),) + filler() + (("import", f"i{state['f']}", (("assign", i, val()), ("read", i))),) + (("read", i),)
